@@ -9,6 +9,7 @@ import (
 	"sort"
 	"strconv"
 	"sync"
+	"sync/atomic"
 	"time"
 
 	cstate "0chain.net/chaincore/chain/state"
@@ -479,8 +480,8 @@ func (mc *Chain) ValidateTransactions(ctx context.Context, b *block.Block) error
 			return nil
 		}
 
-		var roundMismatch bool
-		var cancel bool
+		var roundMismatch atomic.Bool
+		var cancel atomic.Bool
 		numWorkers := len(b.Txns) / mc.ValidationBatchSize()
 		if numWorkers*mc.ValidationBatchSize() < len(b.Txns) {
 			numWorkers++
@@ -520,22 +521,22 @@ func (mc *Chain) ValidateTransactions(ctx context.Context, b *block.Block) error
 
 			validTxns := make([]*transaction.Transaction, 0, len(txns))
 			for _, txn := range txns {
-				if cancel {
+				if cancel.Load() {
 					return
 				}
 				if mc.GetCurrentRound() > b.Round {
-					cancel = true
-					roundMismatch = true
+					cancel.Store(true)
+					roundMismatch.Store(true)
 					return
 				}
 				if txn.OutputHash == "" {
-					cancel = true
+					cancel.Store(true)
 					logging.Logger.Error("validate transactions - no output hash", zap.Int64("round", b.Round), zap.String("block", b.Hash), zap.String("txn", datastore.ToJSON(txn).String()))
 					return
 				}
 				err := txn.ValidateWrtTimeForBlock(ctx, b.CreationDate, !aggregate)
 				if err != nil {
-					cancel = true
+					cancel.Store(true)
 					logging.Logger.Error("validate transactions", zap.Int64("round", b.Round), zap.String("block", b.Hash), zap.String("txn", datastore.ToJSON(txn).String()), zap.Error(err))
 					return
 				}
@@ -546,7 +547,7 @@ func (mc *Chain) ValidateTransactions(ctx context.Context, b *block.Block) error
 						zap.String("block", b.Hash),
 						zap.String("txn", txn.Hash),
 						zap.String("function_name", txn.FunctionName))
-					cancel = true
+					cancel.Store(true)
 					return
 				}
 
@@ -566,7 +567,7 @@ func (mc *Chain) ValidateTransactions(ctx context.Context, b *block.Block) error
 							zap.Int64("round", b.Round),
 							zap.String("block", b.Hash),
 							zap.Error(err))
-						cancel = true
+						cancel.Store(true)
 						return
 					}
 				}
@@ -588,7 +589,7 @@ func (mc *Chain) ValidateTransactions(ctx context.Context, b *block.Block) error
 			case <-ctx.Done():
 				return ctx.Err()
 			case result := <-validChannel:
-				if roundMismatch {
+				if roundMismatch.Load() {
 					logging.Logger.Info("validate transactions (round mismatch)", zap.Int64("round", b.Round), zap.String("block", b.Hash), zap.Int64("current_round", mc.GetCurrentRound()))
 					return ErrRoundMismatch
 				}
